@@ -9,6 +9,7 @@ import Proofs.Lemmas.BeaconBlockFrames
 import Proofs.Lemmas.BeaconBlockP0
 import Proofs.Lemmas.BeaconBlockP0Att
 import Proofs.Lemmas.BeaconBlockP0All
+import Proofs.Lemmas.BeaconBlockP0Dep
 import Proofs.Properties.C02
 /-!
 # C01 — block state transition equals the consensus spec for every valid block
@@ -62,7 +63,8 @@ initiation, i.e. exits and slashings). That is what keeps `M_block_refines_S` a 
 `M_block_refines_S_partial`. For phase0 blocks WITHOUT operations the premise is discharged completely:
 `processBlock_noOps_eq`; for phase0 blocks whose only operations are voluntary exits: `processBlock_exits_eq`; and for phase0 blocks of proposer
 slashings, attester slashings and exits: `processBlock_slashExit_eq`; for phase0 blocks of attestations:
-`processBlock_attestations_eq`. Merged: arbitrary phase0 blocks without deposits, `processBlock_phase0NoDeposits_eq`. (Deposits and the later forks are open.)
+`processBlock_attestations_eq`. Merged: arbitrary phase0 blocks without deposits, `processBlock_phase0NoDeposits_eq`; and EVERY phase0 block, deposits
+included: `processBlock_phase0_eq`, `M_block_refines_S_phase0` (C03: `M_sound_phase0`). The later forks are open.
 Each `M` piece is additionally tied to the Go function it models by mode `c01pieces`
 (ZigZagJoin, IsSlashableAttestationData, GetExpectedWithdrawals, InitiateValidatorExit,
 ValidateIndexedAttestationIndicesSet are driven directly with generated inputs).
@@ -71,7 +73,7 @@ namespace Zrnt.Proofs.C01
 open Zrnt Zrnt.Beacon Zrnt.Beacon.Spec Zrnt.Beacon.BlockImpl Zrnt.Proofs.BeaconBlock
 open Zrnt.Beacon.BlockM (Ctx processHeader processRandaoReveal processEth1Vote processBLSToExecutionChange processExecutionPayload processVoluntaryExit processDeposit
   processAttestationPhase0 processAttestationAltair slashValidator processProposerSlashing processAttesterSlashing processBlock postSlotTransition)
-open Zrnt.Proofs.BlockM (RegU64 ExitSmall PubkeyOK SameDuties SlashSmall SlashInv OpSteps Sim Refines Safe NoOps SameCommittees OnlyExits ExitInv P0Inv P0Const SlashExitBlock AttInv OnlyAttestations P0AInv P0AConst Phase0NoDeposits)
+open Zrnt.Proofs.BlockM (RegU64 ExitSmall PubkeyOK SameDuties SlashSmall SlashInv OpSteps Sim Refines Safe NoOps SameCommittees OnlyExits ExitInv P0Inv P0Const SlashExitBlock AttInv OnlyAttestations P0AInv P0AConst Phase0NoDeposits P0DInv P0DConst Phase0Block)
 
 /-- (a) `common.ValidatorSet.ZigZagJoin`, called on two strictly increasing index lists (what
 `ValidateIndexedAttestation` has established), calls `onIn` with exactly the spec's
@@ -647,5 +649,41 @@ theorem processBlock_phase0NoDeposits_eq (cfg : Config) (S0 : State) (p Bm C k :
     Sim (Block.process_block cfg S0 block) (processBlock cfg ctx S0 block) ∧
     ∀ st', processBlock cfg ctx S0 block = .ok st' → ∃ ctx', P0AInv cfg S0 p Bm C k ctx' st' :=
   BlockM.processBlock_phase0NoDeposits cfg S0 p Bm C k K KA ctx block hb hi htyped
+
+/-- `processBlock_phase0_eq` — for EVERY phase0 block (`Phase0Block`: the container of the fork, every list element
+inside its type limits, deposit amounts within one unit `MAX_VALIDATORS_PER_COMMITTEE · 2·Bm` of the balance budget):
+`phase0.ProcessBlock` simulates `process_block`, with NO premise about the operations, and the state after an accepted
+block satisfies the invariant again with the budget that is left (so blocks chain).
+`P0DInv … k ctx st` (relative to the block's pre-state `S0`): the context's proposer, active count, committee counts and
+committees are the specification's (C07/C08), the pubkey cache answers as the registry (C16), C02's exit-queue budget
+`qmax + farCount ≤ C − k`, registry epochs inside `uint64`, effective balances `≤ Bm`, and `k` units of headroom in the
+slashings vector, the balances and the deposit index. `P0Const`/`P0AConst`/`P0DConst`: configuration facts (non-zero
+quotients, `uint64` room for the epochs, the two seed-lookahead conditions, `MAX_EFFECTIVE_BALANCE ≤ Bm`,
+`VALIDATOR_REGISTRY_LIMIT` below the `ZigZagJoin` marker). -/
+theorem processBlock_phase0_eq (cfg : Config) (S0 : State) (p Bm C k : Nat) (K : P0Const cfg S0 Bm C) (KA : P0AConst cfg) (KD : P0DConst cfg Bm)
+    (ctx : Ctx) (block : SignedBlock) (hb : Phase0Block cfg Bm block)
+    (hi : P0DInv cfg S0 p Bm C (BlockM.blockNeed block k) ctx S0) (htyped : Block.check_types cfg block = .ok ()) :
+    Sim (Block.process_block cfg S0 block) (processBlock cfg ctx S0 block) ∧
+    ∀ st', processBlock cfg ctx S0 block = .ok st' → ∃ ctx', P0DInv cfg S0 p Bm C k ctx' st' :=
+  BlockM.processBlock_phase0 cfg S0 p Bm C k K KA KD ctx block hb hi htyped
+
+/-- `M_block_refines_S_phase0` — C01 for phase0 WITHOUT the premise `OpSteps`: every phase0 block the specification
+accepts is accepted by `ProcessBlock` / `PostSlotTransition` with the same post-state. -/
+theorem M_block_refines_S_phase0 (cfg : Config) (S0 : State) (p Bm C k : Nat) (K : P0Const cfg S0 Bm C) (KA : P0AConst cfg)
+    (KD : P0DConst cfg Bm) (ctx : Ctx) (block : SignedBlock) (hb : Phase0Block cfg Bm block)
+    (hi : P0DInv cfg S0 p Bm C (BlockM.blockNeed block k) ctx S0) (htyped : Block.check_types cfg block = .ok ())
+    (r : Bytes) (hroot : block.o_post_root = some r) :
+    (∀ post, Block.process_block cfg S0 block = .ok post → processBlock cfg ctx S0 block = .ok post) ∧
+    (∀ post, Block.state_transition_post_slots cfg S0 block = .ok post → postSlotTransition cfg ctx S0 block = .ok post) :=
+  ⟨(BlockM.processBlock_phase0 cfg S0 p Bm C k K KA KD ctx block hb hi htyped).1.1.1,
+   (BlockM.postSlot_phase0 cfg S0 p Bm C k K KA KD ctx block hb hi htyped r hroot).1.1⟩
+
+/-- non-vacuity of the configuration facts: a small configuration satisfies `P0AConst` and `P0DConst` -/
+def exampleCfgA : Config :=
+  { (default : Config) with SLOTS_PER_EPOCH := 8, MIN_ATTESTATION_INCLUSION_DELAY := 1, MIN_SEED_LOOKAHEAD := 1, EPOCHS_PER_HISTORICAL_VECTOR := 64 }
+def exampleCfgD : Config :=
+  { (default : Config) with EFFECTIVE_BALANCE_INCREMENT := 1000000000, MAX_EFFECTIVE_BALANCE := 32000000000, VALIDATOR_REGISTRY_LIMIT := 1099511627776 }
+example : P0AConst exampleCfgA := ⟨by decide, by decide, by decide⟩
+example : P0DConst exampleCfgD 32000000000 := ⟨by decide, by decide, by decide⟩
 
 end Zrnt.Proofs.C01
